@@ -1,7 +1,10 @@
 """C01 worker: energies of every model class under every samples_like encoding."""
 from fractions import Fraction
+import warnings
 import numpy as np
 import dimod
+
+warnings.simplefilter('ignore', DeprecationWarning)
 
 import wlib
 from wlib import cq, clist, cnat, cz, cpair, copt
@@ -9,7 +12,7 @@ import gen
 from gen import F, enc_label, dec_label, LabelTable, coq_obs, fs
 
 KINDS = ['bqm64', 'bqm32', 'bqmobj', 'view', 'qm', 'cqm_obj', 'cqm_con', 'cqm_const', 'dqm', 'poly', 'dicts', 'dicts']
-FORMS = ['dict', 'array', 'array_extra', 'dicts', 'sampleset', 'missing']
+FORMS = ['dict', 'array', 'array_extra', 'dicts', 'sampleset', 'missing', 'mapping_labels']
 
 
 def sample_value(rng, vt, lb, ub):
@@ -67,6 +70,9 @@ def gen_case(rng, tier):
                         for cj in range(ncases[j]):
                             if rng.random() < 0.5:
                                 quad.append([i, ci, j, cj, str(rng.dyadic())])
+        # the order in which the case interactions are set and the orientation (u, v) / (v, u) of each call vary
+        rng.shuffle(quad)
+        quad = [[j, cj, i, ci, b] if rng.random() < 0.5 else [i, ci, j, cj, b] for i, ci, j, cj, b in quad]
         sample = [rng.randrange(k) for k in ncases]
         bad = None
         if n and rng.random() < 0.35:
@@ -99,8 +105,24 @@ def gen_case(rng, tier):
         p2 = list(perm)
         rng.shuffle(p2)
         perms.append(p2)
-    return {"kind": kind, "desc": desc, "extra": extra, "rows": rows, "form": form, "perms": perms,
-            "view_flip": rng.random() < 0.5}
+    c = {"kind": kind, "desc": desc, "extra": extra, "rows": rows, "form": form, "perms": perms,
+         "view_flip": rng.random() < 0.5}
+    if kind.startswith('cqm'):
+        # the parent's variable order is independent of the expression's, and variables are removed from /
+        # fixed in the parent (used by the expression or not) before the expression is evaluated
+        order = list(range(len(allvars)))
+        rng.shuffle(order)
+        c["cqm_order"] = order
+        hist = []
+        if allvars and rng.random() < 0.6:
+            for i in rng.sample(range(len(allvars)), rng.randint(1, min(3, len(allvars)))):
+                vt = allvars[i][1]
+                if rng.random() < 0.6:
+                    hist.append(["remove", i])
+                else:
+                    hist.append(["fix", i, sample_value(rng, vt, allvars[i][2], allvars[i][3]) if vt != 'REAL' else 1])
+        c["cqm_hist"] = hist
+    return c
 
 
 def encode_samples(form, labels, rows, perms, drop=None):
@@ -119,6 +141,12 @@ def encode_samples(form, labels, rows, perms, drop=None):
                     arr = arr.astype(dt)
                     break
         return (arr, [labels[i] for i in order]), len(rows)
+    if form == 'mapping_labels':
+        # the (deprecated, still supported) (mapping, labels) form: the dict's insertion order and the order of
+        # the labels are independent permutations
+        order = [i for i in perms[0] if i in use]
+        lab_order = [i for i in (perms[1] if len(perms) > 1 else order[1:] + order[:1]) if i in use]
+        return ({labels[i]: rows[0][i] for i in order}, [labels[i] for i in lab_order]), 1
     if form == 'dicts':
         return [{labels[i]: r[i] for i in p if i in use} for r, p in zip(rows, perms)], len(rows)
     if form == 'sampleset':
@@ -253,7 +281,8 @@ def run_case(c):
         rows = c["rows"]
     else:
         cqm = dimod.ConstrainedQuadraticModel()
-        for l, vt, lb, ub in allvars:
+        for i in c.get("cqm_order", range(len(allvars))):
+            l, vt, lb, ub = allvars[i]
             if vt in ('INTEGER', 'REAL'):
                 cqm.add_variable(vt, dec_label(l), lower_bound=lb, upper_bound=ub)
             else:
@@ -265,6 +294,14 @@ def run_case(c):
         else:
             lab = cqm.add_constraint_from_model(qm, '<=', rhs=1.0)
             target = cqm.constraints[lab].lhs
+        # edit history on the parent: the expression must still evaluate to the polynomial it reports
+        for op in c.get("cqm_hist", []):
+            v = dec_label(allvars[op[1]][0])
+            if op[0] == "remove":
+                cqm.remove_variable(v)
+            else:
+                cqm.fix_variable(v, op[2])
+            feats["hist"] = True
         rows = c["rows"]
     o = gen.observe(target)
     mvars = [dec_label(v) for v in o["vars"]]
